@@ -5,16 +5,17 @@ import vf, _replay as R
 MODULE = "Stream"
 INVS = "TypeOK DataBeforeEOF Fifo"
 PROPS = "WritesRefused ReadsContinue Isolation DocumentedEdges"
-DEVS = ["DevFinBeforeData", "DevCloseTearsAll", "DevWriteAfterHalfClose", "DevHalfCloseReopens"]
+DEVS = ["DevFinBeforeData", "DevCloseTearsAll", "DevWriteAfterHalfClose", "DevHalfCloseReopens", "DevResetCancelsPending"]
 # which property of the statement each deviation breaks (what TLC must report)
 DEV_CAUGHT_BY = {"DevFinBeforeData": "DataBeforeEOF", "DevCloseTearsAll": "Isolation",
-                 "DevWriteAfterHalfClose": "WritesRefused", "DevHalfCloseReopens": "DocumentedEdges"}
+                 "DevWriteAfterHalfClose": "WritesRefused", "DevHalfCloseReopens": "DocumentedEdges",
+                 "DevResetCancelsPending": "Isolation"}
 HFILES = ["common/common_test.go.tmpl", "stream/stream_test.go"]
 STREAMS = ("a", "b")
 
 
 def base_act(a):
-    return {k: v for k, v in a.items() if k in ("act", "s", "hd", "fin")}
+    return {k: v for k, v in a.items() if k in ("act", "s", "hd", "fin", "kind")}
 
 
 FIELDS = ("st", "reg", "buf", "lfin", "rfin", "closed", "rdpc", "rdchunk", "rdeof", "rdtorn", "nreads", "nsent",
@@ -26,6 +27,7 @@ def unpack(p):
     out = {s: dict(zip(FIELDS, p[s])) for s in STREAMS}
     out["fh"] = dict(zip(("pc", "s", "k", "fin"), p["fh"]))
     out["nframes"] = p["nf"]
+    out["pend"] = p["pend"]
     return out
 
 
@@ -40,6 +42,7 @@ def pack_vars(v):
     f = v["fh"]
     out["fh"] = [f["pc"], f["s"], f["k"], f["fin"]]
     out["nf"] = v["nframes"]
+    out["pend"] = v["pend"]
     return out
 
 
@@ -52,14 +55,15 @@ def cex_doc(trace):
 
 def is_init(p):
     u = unpack(p)
-    return (u["nframes"] == 0 and u["a"]["st"] == "Opening" and u["b"]["st"] == "Open" and u["b"]["reg"]
+    return (u["nframes"] == 0 and u["pend"] and u["a"]["st"] == "Opening" and u["b"]["st"] == "Open" and u["b"]["reg"]
             and not any(u[s]["lfin"] or u[s]["rfin"] or u[s]["closed"] or u[s]["nreads"] for s in STREAMS))
 
 
 def proj(p):
     """the projection the Go harness observes on the real objects (zzvStProj)"""
     u = unpack(p)
-    o = {"st": {}, "reg": {}, "nbuf": {}, "lfin": {}, "rfin": {}, "closed": {}, "rd": {}, "rdres": {}, "fh": u["fh"]["pc"]}
+    o = {"st": {}, "reg": {}, "nbuf": {}, "lfin": {}, "rfin": {}, "closed": {}, "rd": {}, "rdres": {}, "fh": u["fh"]["pc"],
+         "pend": u["pend"], "npend": 1 if u["pend"] else 0}
     for s in STREAMS:
         x = u[s]
         o["st"][s], o["reg"][s], o["nbuf"][s] = x["st"], x["reg"], len(x["buf"])
